@@ -146,11 +146,11 @@ class TutteEmbedding(BaseParametrization):
                 # V = 0
             for i,v in enumerate(range(n//4+1, n//2)):
                 U[v] = 1
-                V[v] = 4*i/n
+                V[v] = 4*(i+1)/n
             for i,v in enumerate(range(n//2+1, (3*n)//4)):
-                U[v] = 1-4*i/n
+                U[v] = 1-4*(i+1)/n
                 V[v] = 1
             for i,v in enumerate(range((3*n)//4+1, n)):
                 # U = 0
-                V[v] = 1-4*i/n
+                V[v] = 1-4*(i+1)/n
         return U, V
